@@ -21,6 +21,8 @@ def chain_filter(rl):
 def run(ctx):
     prog = ctx.prog
     rl = RecordLoop(prog)
+    from checks.recordloop import check_raw_record_fields
+    check_raw_record_fields(ctx, 'C13.R1', rl)
     mod, fn = rl.mod, rl.fn
     if 'chains' not in rl.params:
         raise AnalysisError('C13: record generator has no `chains` parameter')
@@ -80,6 +82,8 @@ def run(ctx):
         ctx.ob('C13.R2', 'non-atom-state-write:%s:%s' % (var, norm(node)), not bad,
                'MODEL/TER bookkeeping (%s) does not depend on the chain option or column'
                % norm(node), mod, node)
+
+    common.check_options_readonly(ctx, 'C13.R2', prog)
 
     # R2: purity of the filter test
     names = names_in(flt.test)
